@@ -293,6 +293,12 @@ def _wit(n: int) -> typing.Dict[str, int]:
     return {k: 3 + 5 * i for i, k in enumerate(_argnames(n))}
 
 
+def _wit_big(n: int) -> typing.Dict[str, int]:
+    # The concrete witness uses magnitudes beyond 2**53: the engine models int/int division over the reals, so a slip
+    # into machine floats (exact only up to 2**53) is visible in plain CPython only.
+    return {k: 2 ** 60 + 3 + 5 * i for i, k in enumerate(_argnames(n))}
+
+
 def _unary_ops(tier: str) -> typing.List[typing.Tuple[str, int]]:
     return [("pad", 8), ("pad", 3), ("rep", 2), ("rep", 3), ("rng", 2), ("rng", 3)]
 
@@ -311,7 +317,7 @@ def conditions(tier: str, seed: int) -> typing.List[Cond]:
         if M:
             sc.update({"M": M, "res": res})
             assume = ["leaves a_i = %d*q_i + res_i with q_i >= 0 unbounded (residue class is scaffolding)" % M]
-        out.append(Cond(PROP, group, make_tree, sc, _sig(n), assumptions=assume, witness=_wit(n), budget=budget))
+        out.append(Cond(PROP, group, make_tree, sc, _sig(n), assumptions=assume, witness=_wit_big(n), budget=budget))
 
     def expand_cond(group: str, tree: typing.Any, ds: typing.List[int], bound: int, sugar: bool = False) -> None:
         n = O.nleaves(tree)
